@@ -150,7 +150,8 @@ def run_guard(env, c):
         script += "rx a rm -f %s\n" % tpath
     elif c["exist"] == "created":
         script += "rx a sh -c 'echo foreign > %s'\n" % tpath
-    stamp = {"older": "2000-01-01", "equal": None, "newer": "2040-01-01"}[c["mt"]]
+    # ("ancient": before the epoch, i.e. a negative st_mtime - an existence test must not be built on the sign of a time stamp)
+    stamp = {"older": "2000-01-01", "equal": None, "newer": "2040-01-01", "ancient": "'1969-12-31 12:00 UTC'"}[c["mt"]]
     if stamp and c["exist"] in ("yes", "created"):
         script += "rx a touch -d %s %s\n" % (stamp, tpath)
     # (% is the current file name in ex command arguments: escaped)
@@ -216,7 +217,7 @@ def run_guard(env, c):
 
 
 def guard_cases():
-    for target, exist, mt, bang, cmd, dirty in itertools.product(("own", "other"), ("never", "yes", "deleted", "created"), ("older", "equal", "newer"),
+    for target, exist, mt, bang, cmd, dirty in itertools.product(("own", "other"), ("never", "yes", "deleted", "created"), ("older", "equal", "newer", "ancient"),
                                                                   (False, True), ("w", "range", "wq", "x", "xa"), (False, True)):
         if exist in ("never", "deleted") and mt != "equal":
             continue
